@@ -115,7 +115,8 @@ func BuildDependency(argumentListContext *parser.ArgumentListContext) *core_doma
 }
 
 func ConvertToJDep(result string) *core_domain.CodeDependency {
-	withQuote := strings.ReplaceAll(result, "'", "")
-	split := strings.Split(withQuote, ":")
+	// string notation is written with single or with double quotes
+	withoutQuote := strings.Trim(result, "'\"")
+	split := strings.Split(withoutQuote, ":")
 	return core_domain.NewCodeDependency(split[0], split[1])
 }
